@@ -8,6 +8,9 @@ Cases (JSON):
                    "entries": [REC, ...]}
   REC  = {"k": "dict" | "ordereddict" | "counter" | "defaultdict" | "dictsub" (dict subclasses) | "mapping" (MutableMapping, not a dict)
                | "tuple" | "scalar", "items": [[key, vid], ...]}      (items in the record's key order)
+  {"kind": "session", "schemas": [COLS | {"copy_of": i}, ...], "ops": [OP, ...]}     (round 3: schema OBJECTS used, mutated in place, used again)
+     OP  = ["validate", o, REC] | ["mutate", o, MUT] | ["frame", o] (DataFrame(rows=[], schema=<object o>) becomes the current frame) | ["append", REC]
+     MUT = ["add", COL] | ["insert", COL] | ["pop", name] | ["settype", i, type] | ["setnull", i, bool] | ["rename", i, name] | ["reverse"]
   type = an OrsoTypes member name | "" (type argument omitted) | "0" (the integer 0 a restored untyped column carries)
   vid  = index into POOL (vid 0 is None).  Column names / keys come from NAMES.
 Observations: see observe()."""
@@ -28,7 +31,10 @@ TECHNIQUE = ("Coq proof (induction over the schema for validate, over append his
 LEVEL_TEXT = ("Machine-checked Coq theorems over an executable model of RelationSchema.validate and DataFrame.append, for every schema, "
               "record and append history: validate succeeds iff the record conforms; excess keys are reported first and exactly; the three "
               "error lists are exactly the offending columns in schema order; a raising append leaves the frame unchanged; after any history "
-              "the rows are the initial rows followed by the accepted records' values in column order, each conforming. The type->class table "
+              "the rows are the initial rows followed by the accepted records' values in column order, each conforming. Sessions (round 3): schema objects that are "
+              "used, changed in place (columns added / inserted / removed / retyped / renamed / reordered) and used again are part of the model; "
+              "every validation and every append is proved to be decided by the object's columns as they are at the time of the call, "
+              "independently of all earlier uses. The type->class table "
               "and the issubclass matrix the model uses are regenerated from orso.types / the live classes on every run and pinned by theorems. "
               "The model is tied to schema.py / dataframe.py by running the real code on the complete type x value decision table and on random "
               "schemas x records x append histories and evaluating the model on the same inputs inside Coq; a literal property oracle on the "
@@ -42,20 +48,26 @@ LEVEL_NOTE = ("Trusted: Coq kernel + vm_compute; the hand-written model (values 
               "as raising and covered by the atomicity / acceptance theorems only: NULL-typed columns (TypeError), tuple/scalar entries.")
 DESIGN_REF = "DESIGN.md section 8, C05"
 COQ_IMPORTS = "From Orso Require Import Gen.C05_Types Model.C05."
-COQ_CHECKS = {"validate": "c05_validate_check", "hist": "c05_hist_check"}
-COQ_SHOW = {"validate": "c05_validate_show", "hist": "c05_hist_show"}
+COQ_CHECKS = {"validate": "c05_validate_check", "hist": "c05_hist_check", "session": "c05_session_check"}
+COQ_SHOW = {"validate": "c05_validate_show", "hist": "c05_hist_show", "session": "c05_session_show"}
 RULE = ("validate stream: the complete decision table (every OrsoTypes member and both untyped forms x nullable x one value of every class in "
         "the pool, incl. subclass pairs) on a one-column schema, then random schemas of 1..6 columns (typed/untyped/NULL, nullable or not, "
         "occasionally duplicate names) x records with every column independently missing/null/right/right-by-subclass/wrong plus 0..2 excess keys, "
         "as dict / dict subclass (OrderedDict, Counter, defaultdict, user subclass) / non-dict mapping / tuple / scalar; hist stream: frames created empty, from rows (RelationSchema or name list) or from "
         "dictionaries, 1..8 appends mixing conforming, unserialisable and non-conforming records, observing rows/_nbytes/_cursor after every "
-        "append and the error's .errors/.columns; non-trivial = at least one column check or one append happened; distinct by canonical JSON")
+        "append and the error's .errors/.columns; session stream: 1-2 RelationSchema objects (the second optionally a deep copy of the first), "
+        "4..12 operations mixing validate, in-place changes of the object (columns.append / insert(0) / pop_column / .type / .nullable / .name "
+        "assignment / reverse), making a DataFrame from the object and appending through it, records drawn against the current or the previous "
+        "columns, plus a deterministic matrix (5 ways the object was used before x 12 changes x all probe records validated and appended); "
+        "non-trivial = at least one column check or one append happened; distinct by canonical JSON")
 TRUSTED = [
     "C05 model (coq/Model/C05.v): values are None | (exact class id, identity, serialisable flag); isinstance = regenerated issubclass matrix on type(v)",
     "modelled, not verified: Row.nbytes failing exactly on the pool values flagged unserialisable (ormsgpack), extract_dict_columns (compiled) = dict.get per field",
     "the harness reads DataValidationError.errors under the three literal category strings of schema.py and ExcessColumnsInDataError.columns as a set",
 ]
 ASSUMPTIONS = [
+    "sessions: after an in-place change of a frame's schema object the row CONTENTS of later appends through that (stale) frame are judged by the "
+    "model only (field list taken when the frame was made); the oracle judges their validation outcome, atomicity and 'one row added'",
     "records are str-keyed mappings with distinct keys; values come from a pool with one or more values of every class in the regenerated class table",
     "the history theorem C05_history is over records (dicts and other mappings); tuple/scalar entries are covered by C05_history_rows / C05_append_atomic / C05_append_accepts_iff",
     "rows supplied at construction are not validated by orso; 'every stored row conforms' is proved relative to the initial rows conforming",
@@ -308,19 +320,80 @@ class _Mapping(collections.abc.MutableMapping):
         return len(self._d)
 
 
-def _mk_schema(cols):
-    from orso.schema import FlatColumn, RelationSchema
+def _py_type(ty):
+    """The object a column's .type attribute holds for the case's type string."""
     from orso.types import OrsoTypes
 
-    out = []
-    for name, ty, nullable in cols:
-        if ty == "":
-            out.append(FlatColumn(name=name, nullable=nullable))
-        elif ty == "0":
-            out.append(FlatColumn(name=name, type=0, nullable=nullable))
-        else:
-            out.append(FlatColumn(name=name, type=OrsoTypes.__members__[ty], nullable=nullable))
-    return RelationSchema(name="t", columns=out)
+    if ty == "":
+        return OrsoTypes._MISSING_TYPE
+    if ty == "0":
+        return 0
+    return OrsoTypes.__members__[ty]
+
+
+def _mk_col(col):
+    from orso.schema import FlatColumn
+
+    name, ty, nullable = col
+    if ty == "":
+        return FlatColumn(name=name, nullable=nullable)
+    return FlatColumn(name=name, type=_py_type(ty), nullable=nullable)
+
+
+def _mk_schema(cols):
+    from orso.schema import RelationSchema
+
+    return RelationSchema(name="t", columns=[_mk_col(c) for c in cols])
+
+
+def apply_mut(cols, mut):
+    """The column list after an in-place change of the schema object (pure; used by the generators and the oracle).
+    Returns None when the change is not applicable (index out of range)."""
+    cols = [list(c) for c in cols]
+    k = mut[0]
+    if k == "add":
+        return cols + [list(mut[1])]
+    if k == "insert":
+        return [list(mut[1])] + cols
+    if k == "pop":
+        for i, c in enumerate(cols):
+            if c[0] == mut[1]:
+                return cols[:i] + cols[i + 1:]
+        return cols
+    if k == "reverse":
+        return cols[::-1]
+    i = mut[1]
+    if not (0 <= i < len(cols)):
+        return None
+    if k == "settype":
+        cols[i][1] = mut[2]
+    elif k == "setnull":
+        cols[i][2] = mut[2]
+    elif k == "rename":
+        cols[i][0] = mut[2]
+    else:
+        raise KeyError(k)
+    return cols
+
+
+def _do_mut(schema, mut):
+    k = mut[0]
+    if k == "add":
+        schema.columns.append(_mk_col(mut[1]))
+    elif k == "insert":
+        schema.columns.insert(0, _mk_col(mut[1]))
+    elif k == "pop":
+        schema.pop_column(mut[1])
+    elif k == "reverse":
+        schema.columns.reverse()
+    elif k == "settype":
+        schema.columns[mut[1]].type = _py_type(mut[2])
+    elif k == "setnull":
+        schema.columns[mut[1]].nullable = mut[2]
+    elif k == "rename":
+        schema.columns[mut[1]].name = mut[2]
+    else:
+        raise KeyError(k)
 
 
 class _UserDict(dict):
@@ -406,6 +479,8 @@ def observe(case):
         out = _outcome(lambda: schema.validate(entry))
         out["keys_after"] = _keys_after(case["rec"], entry)
         return out
+    if case["kind"] == "session":
+        return _observe_session(case)
     init = case["init"]
     if init["how"] == "schema":
         df = DataFrame(rows=[tuple(val(v) for v in r) for r in init["rows"]], schema=_mk_schema(init["schema"]))
@@ -422,6 +497,44 @@ def observe(case):
         out = _outcome(lambda: df.append(entry))
         obs["steps"].append({"out": out, "rows": _rows_of(df), "count": df.rowcount, "keys_after": _keys_after(rec, entry),
                              "nb": df._nbytes is not None, "cur": df._cursor is not None})
+    return obs
+
+
+def _observe_session(case):
+    import copy
+
+    from orso.dataframe import DataFrame
+
+    objs = []
+    for sc in case["schemas"]:
+        objs.append(copy.deepcopy(objs[sc["copy_of"]]) if isinstance(sc, dict) else _mk_schema(sc))
+    df = None
+    obs = []
+    for op in case["ops"]:
+        k = op[0]
+        if k == "validate":
+            schema, entry = objs[op[1]], _mk_entry(op[2])
+            out = _outcome(lambda: schema.validate(entry))
+            obs.append({"op": "validate", "out": out, "keys_after": _keys_after(op[2], entry)})
+        elif k == "mutate":
+            try:
+                _do_mut(objs[op[1]], op[2])
+                obs.append({"op": "unit"})
+            except Exception as e:
+                obs.append({"op": "raise", "exc": type(e).__name__})
+        elif k == "frame":
+            df = DataFrame(rows=[], schema=objs[op[1]])
+            obs.append({"op": "unit"})
+        elif k == "append":
+            if df is None:
+                obs.append({"op": "raise", "exc": "NoFrame"})
+                continue
+            entry = _mk_entry(op[1])
+            out = _outcome(lambda: df.append(entry))
+            obs.append({"op": "append", "out": out, "rows": _rows_of(df), "count": df.rowcount, "keys_after": _keys_after(op[1], entry),
+                        "nb": df._nbytes is not None, "cur": df._cursor is not None})
+        else:
+            raise KeyError(k)
     return obs
 
 
@@ -505,6 +618,10 @@ def _legend(case):
                     walk(y)
 
     walk(case)
+    for op in case.get("ops", []):
+        for x in op:
+            if isinstance(x, dict) and "items" in x:
+                vids.update(v for _, v in x["items"])
     return "; ".join("%d=%s" % (v, pool()[v][0]) for v in sorted(vids) if 0 <= v < len(pool()))
 
 
@@ -516,6 +633,8 @@ def oracle(case, obs):
 
 
 def _oracle(case, obs):
+    if case["kind"] == "session":
+        return _oracle_session(case, obs)
     if case["kind"] == "validate":
         rec = case["rec"]
         if rec["k"] in ("tuple", "scalar"):
@@ -542,43 +661,96 @@ def _oracle(case, obs):
     if obs["names"] != names:
         return f"column names must be {names}, are {obs['names']}"
     for i, (rec, st) in enumerate(zip(case["entries"], obs["steps"])):
-        where = f"append {i} {rec}"
-        out = st["out"]
-        d = {k: v for k, v in rec["items"]}
-        if st["count"] != len(st["rows"]):
-            return f"{where}: rowcount {st['count']} differs from the number of stored rows {len(st['rows'])}"
-        if out["v"] != "ok":
-            # raised: the frame's rows must be unchanged
-            if st["rows"] != rows:
-                return f"{where}: the append raised {out} but the rows changed from {rows} to {st['rows']}"
-        must_accept = None
-        if rec["k"] in RECORD_KINDS and st["keys_after"] != [k for k, _ in rec["items"]]:
-            return f"{where}: append must not change the record: keys were {[k for k, _ in rec['items']]}, are {st['keys_after']}"
-        if rec["k"] in RECORD_KINDS:
-            new_row = [d.get(n, 0) for n in names]
-            sizable = all(pool()[v][2] for v in new_row)
-            if cols is not None:
-                exp = _expected_validation(cols, rec)
-                if exp is not None and exp[0] != "ok":
-                    why = _check_outcome(exp, out, where, None)
-                    if why:
-                        return why
-                    continue
-                must_accept = exp is not None and sizable
-            else:
-                must_accept = sizable
-        elif cols is not None:
-            if out["v"] == "ok":
-                return f"{where}: a non-mapping entry cannot validate against a schema; append must raise"
-            continue
+        why, rows = _judge_append(f"append {i} {rec}", rec, st, rows, cols, names)
+        if why:
+            return why
+    return None
+
+
+def _judge_append(where, rec, st, rows, cols, names, stale=False):
+    """One append: cols = the schema's columns now (None: name-list frame), names = the frame's fields, rows = rows before.
+    stale: the schema object was changed after the frame was made - then only the validation outcome, atomicity and 'one row
+    added' are judged, not the row's contents.  Returns (why | None, rows afterwards)."""
+    out = st["out"]
+    d = {k: v for k, v in rec["items"]}
+    if st["count"] != len(st["rows"]):
+        return f"{where}: rowcount {st['count']} differs from the number of stored rows {len(st['rows'])}", rows
+    if out["v"] != "ok":
+        # raised: the frame's rows must be unchanged
+        if st["rows"] != rows:
+            return f"{where}: the append raised {out} but the rows changed from {rows} to {st['rows']}", rows
+    must_accept = None
+    if rec["k"] in RECORD_KINDS and st["keys_after"] != [k for k, _ in rec["items"]]:
+        return f"{where}: append must not change the record: keys were {[k for k, _ in rec['items']]}, are {st['keys_after']}", rows
+    if rec["k"] in RECORD_KINDS:
+        new_row = [d.get(n, 0) for n in names]
+        sizable = all(pool()[v][2] for v in new_row)
+        if cols is not None:
+            exp = _expected_validation(cols, rec)
+            if exp is not None and exp[0] != "ok":
+                return _check_outcome(exp, out, where, None), rows
+            must_accept = exp is not None and sizable
         else:
-            new_row = [v for _, v in rec["items"]] if rec["k"] == "tuple" else None
+            must_accept = sizable
+    elif cols is not None:
         if out["v"] == "ok":
-            if new_row is None or st["rows"] != rows + [new_row]:
-                return f"{where}: accepted: exactly one row {new_row} (values in column order) must be added to {rows}, frame holds {st['rows']}"
-            rows = rows + [new_row]
-        elif must_accept:
-            return f"{where}: the record conforms and can be stored, so the append must add one row; it raised {out}"
+            return f"{where}: a non-mapping entry cannot validate against a schema; append must raise", rows
+        return None, rows
+    else:
+        new_row = [v for _, v in rec["items"]] if rec["k"] == "tuple" else None
+    if out["v"] == "ok":
+        if stale:
+            if len(st["rows"]) != len(rows) + 1 or st["rows"][:len(rows)] != rows:
+                return f"{where}: accepted: exactly one row must be added to {rows}, frame holds {st['rows']}", rows
+            return None, st["rows"]
+        if new_row is None or st["rows"] != rows + [new_row]:
+            return f"{where}: accepted: exactly one row {new_row} (values in column order) must be added to {rows}, frame holds {st['rows']}", rows
+        rows = rows + [new_row]
+    elif must_accept and not stale:
+        return f"{where}: the record conforms and can be stored, so the append must add one row; it raised {out}", rows
+    return None, rows
+
+
+def _oracle_session(case, obs):
+    """Every use of a schema object is judged against that object's columns AS THEY ARE at the time of the call (the
+    case's mutations applied, in order, by apply_mut) - whatever was validated or appended before."""
+    cols = []
+    for sc in case["schemas"]:
+        cols.append([list(c) for c in (cols[sc["copy_of"]] if isinstance(sc, dict) else sc)])
+    frame = None
+    for i, (op, ob) in enumerate(zip(case["ops"], obs)):
+        k = op[0]
+        where = f"op {i} {op} (object's columns now: {cols[op[1]] if k != 'append' else (cols[frame['o']] if frame else None)})"
+        if ob["op"] == "raise":
+            return None  # not a well-formed session (bad index, append without a frame): nothing to judge; Coq flags it
+        if k == "validate":
+            rec = op[2]
+            if rec["k"] in ("tuple", "scalar"):
+                if ob["out"]["v"] != "raise":
+                    return f"{where}: validating a non-mapping must raise, got {ob['out']}"
+                continue
+            if ob["keys_after"] != [x for x, _ in rec["items"]]:
+                return f"{where}: validate must not change the record: keys are {ob['keys_after']}"
+            exp = _expected_validation(cols[op[1]], rec)
+            if exp is not None:
+                why = _check_outcome(exp, ob["out"], where, "True")
+                if why:
+                    return why
+        elif k == "mutate":
+            new = apply_mut(cols[op[1]], op[2])
+            if new is None:
+                return None
+            cols[op[1]] = new
+            if frame is not None and frame["o"] == op[1]:
+                frame["stale"] = True
+        elif k == "frame":
+            frame = {"o": op[1], "names": [c[0] for c in cols[op[1]]], "rows": [], "stale": False}
+        elif k == "append":
+            if frame is None:
+                return None
+            why, frame["rows"] = _judge_append(where, op[1], ob, frame["rows"], cols[frame["o"]], frame["names"], stale=frame["stale"])
+            if why:
+                return why
     return None
 
 
@@ -640,7 +812,59 @@ def _coq_rows(rows):
     return L.lst(L.lst(_coq_val(c) for c in r) for r in rows)
 
 
+def _coq_col(col):
+    n, t, nl = col
+    return "(mkcol %s %s %s)" % (L.N(KEY_ID[n]), _coq_type(t), L.boolean(nl))
+
+
+def _coq_mut(m):
+    k = m[0]
+    if k == "add":
+        return "(MAdd %s)" % _coq_col(m[1])
+    if k == "insert":
+        return "(MInsert %s)" % _coq_col(m[1])
+    if k == "pop":
+        return "(MPop %s)" % L.N(KEY_ID[m[1]])
+    if k == "reverse":
+        return "MReverse"
+    if k == "settype":
+        return "(MSetType %s %s)" % (L.nat(m[1]), _coq_type(m[2]))
+    if k == "setnull":
+        return "(MSetNullable %s %s)" % (L.nat(m[1]), L.boolean(m[2]))
+    if k == "rename":
+        return "(MRename %s %s)" % (L.nat(m[1]), L.N(KEY_ID[m[2]]))
+    raise KeyError(k)
+
+
+def _to_coq_session(case, obs):
+    objs = []
+    for sc in case["schemas"]:
+        objs.append(objs[sc["copy_of"]] if isinstance(sc, dict) else _coq_schema(sc))
+    ops, cobs = [], []
+    for op, ob in zip(case["ops"], obs):
+        k = op[0]
+        if k == "validate":
+            ops.append("(SValidate %s %s)" % (L.nat(op[1]), _coq_entry(op[2])))
+        elif k == "mutate":
+            ops.append("(SMutate %s %s)" % (L.nat(op[1]), _coq_mut(op[2])))
+        elif k == "frame":
+            ops.append("(SNewFrame %s)" % L.nat(op[1]))
+        else:
+            ops.append("(SAppend %s)" % _coq_entry(op[1]))
+        if ob["op"] == "validate":
+            cobs.append("(BValidate %s)" % _coq_out(ob["out"], "OOk" if ob["out"].get("ret") == "True" else "OOther"))
+        elif ob["op"] == "unit":
+            cobs.append("BUnit")
+        elif ob["op"] == "append":
+            cobs.append("(BAppend %s %s %s %s)" % (_coq_out(ob["out"], "OOk"), _coq_rows(ob["rows"]), L.boolean(ob["nb"]), L.boolean(ob["cur"])))
+        else:
+            cobs.append("(BValidate OOther)")  # the operation itself raised: never matches
+    return ("session", "((%s, %s, %s) : c05_session_case)" % (L.lst(objs), L.lst(ops), L.lst(cobs)))
+
+
 def to_coq(case, obs):
+    if case["kind"] == "session":
+        return _to_coq_session(case, obs)
     if case["kind"] == "validate":
         rec = case["rec"]
         return ("validate", "((%s, %s, %s) : c05_validate_case)" % (_coq_schema(case["schema"]), _coq_entry(rec), _coq_out(obs, "OOk" if obs.get("ret") == "True" else "OOther")))
@@ -712,6 +936,24 @@ def corpus():
     yield {"kind": "hist", "init": {"how": "dicts", "dicts": []}, "entries": [{"k": "dict", "items": [["c0", 3]]}]}
     yield {"kind": "hist", "init": {"how": "names", "names": ["c0", "c1"], "rows": [[2, 5]]},
            "entries": [{"k": "dict", "items": [["c1", 31]]}, {"k": "dict", "items": [["c1", 7]]}, {"k": "tuple", "items": [["c0", 2], ["c1", 3]]}]}
+    # round 3: the same schema object validated, changed in place, validated again (a memo of the per-column classes made
+    # at first use must not survive the change); then a frame made from the changed object
+    a = ["c0", "INTEGER", False]
+    b = ["c1", "VARCHAR", False]
+    R = lambda *items: {"k": "dict", "items": [list(x) for x in items]}
+    yield {"kind": "session", "schemas": [[a]], "ops": [
+        ["validate", 0, R(("c0", 2))], ["mutate", 0, ["add", b]],
+        ["validate", 0, R(("c0", 2))], ["validate", 0, R(("c0", 2), ("c1", 0))], ["validate", 0, R(("c0", 2), ("c1", 2))],
+        ["validate", 0, R(("c0", 2), ("c1", 5))],
+        ["frame", 0], ["append", R(("c0", 2), ("c1", 5))], ["append", R(("c0", 2), ("c1", 2))], ["append", R(("c0", 3), ("c1", 0))],
+        ["append", R(("c0", 3))], ["append", R(("c0", 3), ("c1", 6))]]}
+    yield {"kind": "session", "schemas": [[a, b]], "ops": [
+        ["validate", 0, R(("c0", 2), ("c1", 5))], ["mutate", 0, ["pop", "c0"]],
+        ["validate", 0, R(("c1", 5))], ["validate", 0, R(("c1", 2))], ["validate", 0, R(("c0", 2), ("c1", 5))]]}
+    yield {"kind": "session", "schemas": [[a, b], {"copy_of": 0}], "ops": [
+        ["validate", 0, R(("c0", 2), ("c1", 5))], ["validate", 1, R(("c0", 2), ("c1", 5))], ["mutate", 1, ["settype", 0, "VARCHAR"]],
+        ["validate", 1, R(("c0", 2), ("c1", 5))], ["validate", 1, R(("c0", 5), ("c1", 5))], ["validate", 0, R(("c0", 5), ("c1", 5))],
+        ["validate", 0, R(("c0", 2), ("c1", 5))]]}
     # several rules firing at once; excess checked first
     sch = [["c0", "INTEGER", False], ["c1", "VARCHAR", True], ["c2", "DATE", False], ["c3", "", False]]
     yield {"kind": "validate", "schema": sch, "rec": {"k": "dict", "items": [["c0", 0], ["c1", 2], ["c3", 0]]}}
@@ -772,11 +1014,61 @@ def exhaustive(tier):
                                             items.append(["x0", 2])
                                         yield {"kind": "validate", "schema": [["c0", t0, n0], ["c1", t1, n1]], "rec": {"k": "dict", "items": items}}
 
+        yield from _session_matrix()
+
     label = ("one-column schemas: every OrsoTypes member + both untyped forms (%d) x nullable/not x every pool value (%d, at least one per class of the "
              "regenerated class table, incl. subclass pairs)" % (len(types), n))
+    label += ("; session matrix: a two-column schema object x {never used, validated (ok / rejected), appended through a frame, an equal copy "
+              "validated} before x each in-place change {append/insert a column, pop first/last/absent, retype, untype, nullable flip, rename, reverse} "
+              "x afterwards every probe record (conforming, each column missing / null / wrongly typed, conforming to the old columns) validated "
+              "and appended through a frame made from the changed object")
     if tier == "thorough":
         label += "; two-column schemas over {INTEGER, DATE, untyped}^2 x nullable^2 x {missing,null,right,subclass,wrong}^2 x {no, one} excess key"
     return it(), label
+
+
+def _probes(cols, old_cols):
+    """Probe records against cols: conforming; per column missing / null / wrong; a record conforming to old_cols."""
+    def conforming(cs):
+        items, seen = [], set()
+        for n, t, _ in cs:
+            if n not in seen:
+                seen.add(n)
+                items.append([n, _state_value(None, t, 2)])
+        return items
+
+    base = conforming(cols)
+    out = [base]
+    for j in range(len(base)):
+        n, t = base[j][0], [c[1] for c in cols if c[0] == base[j][0]][0]
+        out.append(base[:j] + base[j + 1:])
+        out.append(base[:j] + [[n, 0]] + base[j + 1:])
+        out.append(base[:j] + [[n, _state_value(None, t, 4)]] + base[j + 1:])
+    out.append(conforming(old_cols))
+    return [{"k": "dict", "items": it} for it in out]
+
+
+def _session_matrix():
+    a = ["c0", "INTEGER", False]
+    b = ["c1", "VARCHAR", False]
+    new = ["c2", "DATE", False]
+    ok = {"k": "dict", "items": [["c0", 2], ["c1", 5]]}
+    bad = {"k": "dict", "items": [["c0", 5], ["c1", 0]]}
+    muts = [["add", new], ["insert", new], ["pop", "c0"], ["pop", "c1"], ["pop", "c7"], ["settype", 0, "VARCHAR"], ["settype", 1, "INTEGER"],
+            ["settype", 1, ""], ["settype", 0, "0"], ["setnull", 0, True], ["rename", 1, "c3"], ["reverse"]]
+    primes = [
+        ("unused", [[a, b]], []),
+        ("validated-ok", [[a, b]], [["validate", 0, ok]]),
+        ("validated-rejected", [[a, b]], [["validate", 0, bad]]),
+        ("appended", [[a, b]], [["frame", 0], ["append", ok]]),
+        ("copy-validated", [[a, b], {"copy_of": 0}], [["validate", 0, ok], ["validate", 1, ok]]),
+    ]
+    for m in muts:
+        after = apply_mut([a, b], m)
+        probes = _probes(after, [a, b])
+        for _, schemas, pre in primes:
+            ops = list(pre) + [["mutate", 0, m]] + [["validate", 0, pr] for pr in probes] + [["frame", 0]] + [["append", pr] for pr in probes]
+            yield {"kind": "session", "schemas": schemas, "ops": ops}
 
 
 def _state_value(rng, ty, st):
@@ -887,18 +1179,117 @@ def _rand_hist(rng):
     return {"kind": "hist", "init": init, "entries": entries}
 
 
+def _rand_col(rng, used):
+    free = [n for n in NAMES[:8] if n not in used] or NAMES[:8]
+    typed = [t for t in _type_names() if t in EXPECTED_CLASS]
+    r = rng.random()
+    ty = rng.choice(typed) if r < 0.85 else rng.choice(UNTYPED)
+    return [rng.choice(free), ty, rng.random() < 0.4]
+
+
+def _rand_mut(rng, cols):
+    used = [c[0] for c in cols]
+    typed = [t for t in _type_names() if t in EXPECTED_CLASS]
+    kinds = ["add", "add", "insert", "reverse"]
+    if cols:
+        kinds += ["pop", "pop", "settype", "settype", "setnull", "rename"]
+    k = rng.choice(kinds)
+    if k in ("add", "insert"):
+        return [k, _rand_col(rng, used)]
+    if k == "pop":
+        return ["pop", rng.choice(used) if rng.random() < 0.9 else rng.choice(NAMES[:8])]
+    if k == "reverse":
+        return ["reverse"]
+    i = rng.randrange(len(cols))
+    if k == "settype":
+        return ["settype", i, rng.choice(typed) if rng.random() < 0.8 else rng.choice(UNTYPED)]
+    if k == "setnull":
+        return ["setnull", i, not cols[i][2]]
+    free = [n for n in NAMES[:8] if n not in used] or NAMES[:8]
+    return ["rename", i, rng.choice(free)]
+
+
+def _rand_session(rng):
+    """1-2 schema objects; uses (validate / append through a frame) interleaved with in-place changes.  Records are drawn
+    against the object's current columns, or (stale record) against its columns before the last change."""
+    first = [c for c in _rand_schema(rng)[:4] if c[1] != "NULL"] or [["c0", "INTEGER", False]]
+    schemas = [first]
+    cols = [[list(c) for c in first]]
+    if rng.random() < 0.4:
+        if rng.random() < 0.5:
+            schemas.append({"copy_of": 0})
+            cols.append([list(c) for c in first])
+        else:
+            other = [c for c in _rand_schema(rng)[:3] if c[1] != "NULL"] or [["c1", "VARCHAR", True]]
+            schemas.append(other)
+            cols.append([list(c) for c in other])
+    prev = [list(c) for c in cols]
+    ops = []
+    frame = None
+
+    def record(o):
+        cs = prev[o] if rng.random() < 0.2 else cols[o]
+        r = _rand_record(rng, cs, 0.55)
+        if r["k"] in ("tuple", "scalar") and rng.random() < 0.7:
+            r["k"] = "dict"
+        return r
+
+    for _ in range(rng.randint(4, 12)):
+        o = rng.randrange(len(schemas))
+        r = rng.random()
+        if r < 0.38:
+            ops.append(["validate", o, record(o)])
+        elif r < 0.62:
+            m = _rand_mut(rng, cols[o])
+            prev[o] = cols[o]
+            cols[o] = apply_mut(cols[o], m)
+            ops.append(["mutate", o, m])
+        elif r < 0.72 or frame is None:
+            frame = o
+            ops.append(["frame", o])
+        else:
+            ops.append(["append", record(frame)])
+    return {"kind": "session", "schemas": schemas, "ops": ops}
+
+
 def generate(rng, tier):
     count = 900 if tier == "quick" else 18000
     for i in range(count):
         yield _rand_validate(rng) if i % 2 == 0 else _rand_hist(rng)
+    for i in range(350 if tier == "quick" else 7000):
+        yield _rand_session(rng)
 
 
 def search(rng):
     while True:
-        yield _rand_hist(rng) if rng.random() < 0.6 else _rand_validate(rng)
+        r = rng.random()
+        yield _rand_hist(rng) if r < 0.4 else _rand_session(rng) if r < 0.75 else _rand_validate(rng)
+
+
+def _shrink_session(case):
+    ops = case["ops"]
+    for i in range(len(ops)):
+        yield dict(case, ops=ops[:i] + ops[i + 1:])
+    if len(case["schemas"]) > 1 and not any(op[0] in ("validate", "mutate", "frame") and op[1] == len(case["schemas"]) - 1 for op in ops) \
+            and not any(isinstance(sc, dict) and sc["copy_of"] == len(case["schemas"]) - 1 for sc in case["schemas"]):
+        yield dict(case, schemas=case["schemas"][:-1])
+    for i, op in enumerate(ops):
+        rec = op[2] if op[0] == "validate" else op[1] if op[0] == "append" else None
+        if rec is None:
+            continue
+        for j in range(len(rec["items"])):
+            r2 = dict(rec, items=rec["items"][:j] + rec["items"][j + 1:])
+            yield dict(case, ops=ops[:i] + [op[:-1] + [r2]] + ops[i + 1:])
+    for k, sc in enumerate(case["schemas"]):
+        if isinstance(sc, list) and len(sc) > 1:
+            for j in range(len(sc)):
+                yield dict(case, schemas=case["schemas"][:k] + [sc[:j] + sc[j + 1:]] + case["schemas"][k + 1:])
 
 
 def shrink(case):
+    if case["kind"] == "session":
+        yield from _shrink_session(case)
+        return
     if case["kind"] == "validate":
         cols, rec = case["schema"], case["rec"]
         for i in range(len(cols)):
@@ -929,6 +1320,10 @@ def shrink(case):
 # evidence bookkeeping
 
 def nontrivial_key(case, obs):
+    if case["kind"] == "session":
+        if not any(op[0] in ("validate", "append") for op in case["ops"]):
+            return None
+        return repr((case["schemas"], case["ops"]))
     if case["kind"] == "validate":
         if not case["schema"]:
             return None
@@ -940,6 +1335,24 @@ def nontrivial_key(case, obs):
 
 def classify(case, obs):
     yield case["kind"]
+    if case["kind"] == "session":
+        yield "session-objects=%d" % len(case["schemas"])
+        used = set()
+        changed_after_use = set()
+        for op, ob in zip(case["ops"], obs):
+            k = op[0]
+            if k == "mutate":
+                yield "session-mutate:" + op[2][0]
+                if op[1] in used:
+                    changed_after_use.add(op[1])
+            elif k == "validate":
+                yield "session-validate:" + ob["out"]["v"] + ("-after-change-of-used-object" if op[1] in changed_after_use else "")
+                used.add(op[1])
+            elif k == "frame":
+                used.add(op[1])
+            elif k == "append" and ob["op"] == "append":
+                yield "session-append:" + ob["out"]["v"]
+        return
     if case["kind"] == "validate":
         yield "cols=%d" % len(case["schema"])
         yield "verdict:" + obs["v"]
